@@ -433,6 +433,30 @@ def perturb_case(case, res):
                 if z1.chan_bw.unit != unit:
                     expect_reject([z1[:3], w], f"same number, different unit ({unit}) for chan_bw, single channel")
         res.hits["unit spellings"] += 1
+        # the same instant written on another time scale is the same instant; the same READING on another scale is not
+        from astropy.time import Time as _Time
+        for scale in ("tai", "tt"):
+            for which in (0, 1):
+                px, py = z[:3], z[3:]
+                if which == 0:
+                    px = type(px).like(px, start_time=getattr(px.start_time, scale))
+                else:
+                    py = type(py).like(py, start_time=getattr(py.start_time, scale))
+                res.transitions += 1
+                try:
+                    j = pb.concatenate([px, py])
+                    d = abs(T(j.start_time.utc) - T(z.start_time)) * 86400
+                    if len(j) != len(z) or not np.array_equal(np.asarray(j.data), np.asarray(z.data)) or d > F(1, 10 ** 9):
+                        res.violation("perturb|time scale spelling|result", f"piece {which} stamped in {scale}: joined signal differs "
+                                      f"(start off by {float(d):.3g} s)", case, {"scale": scale, "piece": which, "rate": rate})
+                    else:
+                        res.hits["piece stamped on another time scale"] += 1
+                except Exception as e:
+                    res.violation("perturb|time scale spelling rejected", f"piece {which} stamped in {scale} (same instant) was rejected: "
+                                  f"{type(e).__name__}: {e}", case, {"scale": scale, "piece": which, "rate": rate})
+            st = z[3:].start_time
+            wrong = type(z).like(z[3:], start_time=_Time(st.jd1, st.jd2, format="jd", scale=scale))
+            expect_reject([z[:3], wrong], f"same clock reading on the {scale} scale (another instant)")
         expect_reject([], "empty list")
         expect_reject([np.zeros(3), np.zeros(3)], "non-Signal")
     # far from the first piece a one-sample error must still be refused (no tolerance that grows with elapsed time)
@@ -466,7 +490,7 @@ def main(argv=None):
         PID, gen_cases=gen_cases, check_case=check_case, describe=describe,
         required_hits=["empty piece", "piece without start time", "leading start-less piece (start extrapolated backwards)",
                        "grouping", "non-contiguous in time rejected", "non-contiguous in frequency rejected",
-                       "joined along frequency", "other-axis mismatch rejected", "perturbed piece rejected", "one-sample error far from the start", "unit spellings", "negative axis spelling"],
+                       "joined along frequency", "other-axis mismatch rejected", "perturbed piece rejected", "one-sample error far from the start", "unit spellings", "negative axis spelling", "piece stamped on another time scale"],
         assumptions=["a sequence must be rejected only if two NON-EMPTY start-bearing pieces are inconsistent by >= 1 sample "
                      "(mis-stamped empty pieces are unconstrained); rates above ~10 GHz are outside the quantifier "
                      "(Time.isclose window 40 ps)", "any exception class counts as rejection"],
